@@ -193,25 +193,19 @@ theorem reloaded_in_index_order (s : St Ω) (n : Nat) (parOf : Nat → Nat) (hn 
     hierarchyOrder s = .ok (List.range n) :=
   hierarchyOrder_range s n parOf hn hroot hlen hpar hnode
 
-/-- **JSON fixed point** for every HUGR reachable through the mutators (C04 `Reach`) and every lawful
-    operation codec: whenever `_to_serial` succeeds, loading the document succeeds and serialising
-    the loaded HUGR gives the same nodes, edges and metadata.  `hcover`: the hierarchy walk lists
-    every live node (all nodes hang under the root). -/
-theorem json_fixed_point [Inhabited Ω] (rootOp : Ω) (m : Meta) (s : St Ω) (hr : C04.Reach rootOp m s)
-    (c : OpCodec Ω) (nrm : Ω → Ω) (laws : CodecLaws c nrm)
-    (order : List Nat) (hl : hierLoop s (s.nodes.length + 1) [s.root] [] [] = .ok order)
-    (hcover : ∀ i ∈ liveNodes s, i ∈ order) : JsonFixedPoint c s := by
+/-- **JSON fixed point** for every HUGR built through the mutators with live node arguments (C04
+    `ReachT`) and every lawful operation codec: whenever `_to_serial` succeeds, loading the document
+    succeeds and serialising the loaded HUGR gives the same nodes, edges and metadata. -/
+theorem json_fixed_point [Inhabited Ω] (rootOp : Ω) (m : Meta) (s : St Ω) (hr : C04.ReachT rootOp m s)
+    (c : OpCodec Ω) (nrm : Ω → Ω) (laws : CodecLaws c nrm) : JsonFixedPoint c s := by
   intro d hd
-  obtain ⟨a, b, cc⟩ := C03.index_sane_nodes rootOp m s hr order hl
-  have ho : hierarchyOrder s = .ok order := by
-    unfold hierarchyOrder
-    rw [hl]
-    have : (liveNodes s).filter (fun i => !order.contains i) = [] := by
-      apply List.filter_eq_nil_iff.mpr
-      intro i hi
-      simp [hcover i hi]
-    simp only [this, List.append_nil]
+  obtain ⟨order, ho, _, _, a, b, cc⟩ := C03.index_sane_nodes_exact rootOp m s hr
   exact Serial.json_fixed_point c nrm laws s order ho a b cc d hd
+
+/-- … in particular for the labelled operations of the raw store histories. -/
+theorem json_fixed_point_label (m : Meta) (s : St String) (hr : C04.ReachT "module" m s) :
+    JsonFixedPoint labelCodec s :=
+  json_fixed_point "module" m s hr labelCodec id labelCodec_laws
 
 /-- Non-vacuity / regression: a store with an order link, a multi-link, metadata and a reused
     index is a fixed point of the model's JSON round trip. -/
